@@ -3,7 +3,7 @@
 (* with -tags verif): the state logged by the last term.* hook event, the result list logged by the last          *)
 (* term.list event, the configuration, and the screen captured from the terminal emulator.                        *)
 (*   r = [w, h, wide, zero, cfg, st, maxItems, orig, rows]                                                         *)
-(*     st    = [input, cx, xoffset, list, texts, sel, multi, cy, offset, count]   (FzfScreen's state record)       *)
+(*     st    = [input, cx, xoffset, list, texts, sel, multi, cy, offset, count, track]   (FzfScreen's state)       *)
 (*     orig  : the input records of the listed items (items never change after they have been read)               *)
 (*     rows  : the captured screen, top to bottom, one text (sequence of cells) per row, trailing blanks removed   *)
 (* Verdict: the screen is exactly Render(st, geometry, cfg).  Only where an inline info text has no room left      *)
